@@ -354,6 +354,27 @@ def _worker(case):
             ent['mag'] = we_ * (np.abs(ye) + np.abs(mue) + 1)
         evals.append(ent)
     res['evals'] = evals
+    # the statistics describe the FIT: evaluating the model on other data (score, residuals, log-likelihood on the held-out
+    # set above) must leave every entry as it was reported after the fit
+    S2 = gam.statistics_
+    changed = []
+    try:
+        after = dict(edof=float(S2['edof']), scale=float(S2['scale']), AIC=float(S2['AIC']), AICc=float(S2['AICc']),
+                     GCV=None if S2['GCV'] is None else float(S2['GCV']), UBRE=None if S2['UBRE'] is None else float(S2['UBRE']),
+                     explained=float(S2['pseudo_r2']['explained_deviance']), mcf=float(S2['pseudo_r2']['McFadden']),
+                     mcfadj=float(S2['pseudo_r2']['McFadden_adj']), deviance=float(S2['deviance']), ll=float(S2['loglikelihood']),
+                     n_samples=int(S2['n_samples']))
+        for k_, v_ in after.items():
+            a_ = impl[k_]
+            same = (a_ is None and v_ is None) or (a_ is not None and v_ is not None and (a_ == v_ or (a_ != a_ and v_ != v_)))
+            if not same:
+                changed.append((k_, a_, v_))
+        if not (np.array_equal(_f(S2['cov']), impl['cov'], equal_nan=True) and np.array_equal(_f(S2['se']), impl['se'], equal_nan=True)
+                and [float(p) for p in S2['p_values']] == impl['p_values'] or any(p != p for p in impl['p_values'])):
+            changed.append(('cov/se/p_values', None, None))
+    except Exception as e:  # noqa
+        changed.append(('statistics_ unreadable after the evaluations: %s' % type(e).__name__, None, None))
+    res['stats_changed'] = changed
     res['orc'] = orc
     return res
 
@@ -533,6 +554,8 @@ def _oracle_findings(r, margin=10.0):
         tol = 1e-7 + 1e-5 * min(1.0, wz['cond_eff'] * 1e-8) + _p_sens(r, wz, wz['score_o'], 1e-10 * wz['cond_eff'] * abs(wz['score_o']))
         if not _close(wz['p_impl'], wz['p_o'], tol * margin):
             bad.append(('p_value', wz['p_impl'], wz['p_o'], 'term %d (%s, rank %d), tol %.3g' % (wz['term'], wz['kind'], wz['rank'], tol * margin)))
+    for (k_, a_, v_) in r.get('stats_changed', []):
+        bad.append(('statistics_ changed by evaluating the model on other data: ' + str(k_), v_, a_, 'value reported after the fit vs value read after score / residuals / log-likelihood on held-out data'))
     # evaluation outputs
     for ent in r['evals']:
         if ent['status'] != 'ok':
